@@ -126,10 +126,14 @@ func fineCancelStop(name string, stop Item) *Scenario {
 	s.Insts = insts("A")
 	s.Script = starts("A")
 	stop.Actor, stop.Inst, stop.At, stop.Manual = "life2", "A", time.Hour, true
+	// (the window opens at a Status() call between two heartbeats: opening it at the answer
+	// of a refresh would leave the heartbeat's select with two ready cases, the reply and the
+	// cancelled context, and Go picks one at random)
 	s.Script = append(s.Script,
 		Item{At: time.Hour, Actor: "life1", Do: "cancelctx", Inst: "A", Manual: true},
-		stop)
-	s.FineAt = "ok:A.hb.Update#1"
+		stop,
+		Item{At: 1*s.H + 61*ms, Actor: "probe", Do: "status", Inst: "A", Fixed: true})
+	s.FineAt = "fire:status:A@3"
 	s.FineFire = []int{1, 2}
 	s.FinePts = 500
 	s.Horizon = 3 * s.H
